@@ -102,8 +102,8 @@ Inductive op := OEq | ONe | OStarts | OEnds | OIn | OLt | OLe | OGt | OGe | OBan
 
 Inductive pexn := XValue | XType | XAttr | XKey.
 
-(* what _val_matches returns: a bool, an int (operator &), or an exception that
-   is NOT caught by its `except (TypeError, AttributeError)` *)
+(* what _val_matches returns: a bool (bool(_apply_operator(...))), or an exception raised
+   while resolving the expected value (outside its try).  [OI] is no longer produced. *)
 Inductive ores := OB (b : bool) | OI (z : Z) | OX (x : pexn).
 
 (* `if not isinstance(val, (int, float, bytes, str, type(None), tuple, TupleCoord)): val = str(val)` *)
@@ -139,22 +139,9 @@ Definition py_eq (a b : pv) : bool :=
   | _, _ => false
   end.
 
-(* val != expected.
-   TupleCoord inherits recordclass' __ne__, which answers NotImplemented for every
-   operand that is not the same class; tuple/int/... answer NotImplemented too, so
-   Python falls back to identity: True - also when __eq__ says equal.
-   JankStringyBytes.__ne__ is `not self.__eq__(other)`; for an operand that is
-   neither str nor bytes __eq__ is NotImplemented, which is truthy: False. *)
-Definition py_ne (a b : pv) : bool :=
-  match a, b with
-  | PCoord _ _, PBytes (Some _) _ => false
-  | PCoord _ _, _ => true
-  | PBytes (Some _) _, PStr _ | PBytes (Some _) _, PBytes _ _ => negb (py_eq a b)
-  | PBytes (Some _) _, _ => false
-  | PStr _, PBytes (Some _) _ | PBytes _ _, PBytes (Some _) _ => negb (py_eq a b)
-  | _, PBytes (Some _) _ => false
-  | _, _ => negb (py_eq a b)
-  end.
+(* val != expected: TupleCoord.__ne__ and JankStringyBytes.__ne__ are the negation of
+   __eq__ (NotImplemented falls back to identity, i.e. True for a foreign operand) *)
+Definition py_ne (a b : pv) : bool := negb (py_eq a b).
 
 Definition cmp_holds (o : op) (c : comparison) : bool :=
   match o, c with
@@ -197,10 +184,8 @@ Definition py_affix (ends : bool) (a b : pv) : bool :=
   | _, _ => false
   end.
 
-(* expected in val.
-   FINDING (contains-int-out-of-byte-range): `n in some_bytes` raises ValueError
-   for an int outside range(256); _val_matches only catches TypeError and
-   AttributeError.  After a fix this branch becomes [OB false]. *)
+(* expected in val.  `n in some_bytes` raises ValueError for an int outside
+   range(256); _val_matches catches it (TypeError, AttributeError, ValueError => False) *)
 Definition py_in (a b : pv) : ores :=
   match a, b with
   | PStr s, PStr p => OB (infixb p s)
@@ -210,7 +195,7 @@ Definition py_in (a b : pv) : ores :=
       if int_like x then
         if (Z.leb 0 (nnum x) && Z.ltb (nnum x) 256)%bool
         then OB (existsb (fun c => Z.eqb (Z.of_N c) (nnum x)) s)
-        else OX XValue
+        else OB false
       else OB false
   | PTup l, PNum x => OB (existsb (fun y => num_eqb y x) l)
   | PCoord l _, PNum x => OB (existsb (fun y => num_eqb y x) l)
@@ -224,7 +209,7 @@ Definition py_band (a b : pv) : ores :=
       match nkind x, nkind y with
       | KB, KB => OB (num_nonzero x && num_nonzero y)
       | KF, _ | _, KF => OB false
-      | _, _ => OI (Z.land (nnum x) (nnum y))
+      | _, _ => OB (negb (Z.eqb (Z.land (nnum x) (nnum y)) 0))   (* bool(val & expected) *)
       end
   | _, _ => OB false
   end.
@@ -445,11 +430,9 @@ Fixpoint scan (sc : bool) (hit : var -> hres) (fs : list (fkey * var)) (acc : li
       end
   end.
 
-(* MatchResult(<result of _base_matches>, []) as seen by bool().
-   FINDING (band-on-meta-int-result): `Meta.X & n` puts the int `val & expected`
-   into MatchResult.result; MatchResult.__bool__ then returns an int and bool()
-   raises TypeError.  The base class writes `... or False`, so there a zero is
-   still False.  After a fix the OI branches become [Ok (negb (z =? 0)) []]. *)
+(* MatchResult(<result of _base_matches>, []) as seen by bool().  The [OI] branches
+   (an int in MatchResult.result makes bool() raise TypeError) are unreachable now
+   that _val_matches returns a real bool. *)
 Definition of_base (k : ekind) (r : ores) : res :=
   match r with
   | OB b => Ok b []
